@@ -111,7 +111,6 @@ func newScopeRegistryWithShardCount(
 }
 
 func (r *scopeRegistry) Report(reporter StatsReporter) {
-	defer r.purgeIfRootClosed()
 	r.reportInternalMetrics()
 
 	for _, subscopeBucket := range r.subscopes {
@@ -136,7 +135,6 @@ func (r *scopeRegistry) Report(reporter StatsReporter) {
 }
 
 func (r *scopeRegistry) CachedReport() {
-	defer r.purgeIfRootClosed()
 	r.reportInternalMetrics()
 
 	for _, subscopeBucket := range r.subscopes {
@@ -284,7 +282,9 @@ func (r *scopeRegistry) purgeIfRootClosed() {
 	for _, subscopeBucket := range r.subscopes {
 		subscopeBucket.mu.Lock()
 		for k, s := range subscopeBucket.s {
-			_ = s.Close()
+			if !s.root {
+				_ = s.Close()
+			}
 			s.clearMetrics()
 			delete(subscopeBucket.s, k)
 		}
